@@ -11,6 +11,7 @@
       argument        `{ a(σ⏎)}`             an argument of the field `a`
       description     `σ⏎scalar A`           the description of the scalar `A` (flags with `allow_type_system`)
       object field    `{ σ⏎}`                through `parse_value`: a field of an input-object literal
+      variable def.   `query(σ⏎){a}`         a variable definition of the query
 
   `⏎` is a line feed: the spanned text ends with its last token, and a line feed satisfies every follow restriction of
   the lexical grammar (a space would do as well; ignored characters are insignificant — `lex_ignored_invariant`).
@@ -337,6 +338,99 @@ theorem span_reparse_argument (fl : Flags) (s : Text) (d : Document) (h : parseT
     · rw [checkAll_cons]
       exact ⟨_, rest2, (check_tok ..).2 ⟨_, rfl, rfl, rfl⟩, by rw [checkAll_nil]⟩
 
+/-! ### variable definitions: inside `query( … ){a}` -/
+
+/-- the document `query(vd){a}` with the field `a` at `(k + 9, k + 10)` -/
+def queryDoc (vd : VariableDefinition) (k : Nat) : Document :=
+  ⟨[.operation ⟨K.query, none, [vd], [],
+      .mk [.field none ⟨[97], some (k + 9, k + 10)⟩ [] [] none (some (k + 9, k + 10))] (some (k + 8, k + 11)),
+      some (0, k + 11)⟩], some (0, k + 11)⟩
+
+/-- VARIABLE DEFINITIONS (of operations and, with `experimental_fragment_variables`, of fragments): the spanned text
+    `$v: T = default @dirs` put inside `query(σ⏎){a}` is accepted by `parse` under the same flags, and the result is the query
+    whose only variable definition is the node, moved to offset 6. -/
+theorem span_reparse_variable_definition (fl : Flags) (s : Text) (d : Document) (h : parseText fl s = some d) :
+    ∀ x ∈ d.definitions, ∀ vd : VariableDefinition, Item.Sub (variableDefinitionV vd) (definitionV x) →
+      wfVariableDefinition vd = true → ∀ a b, vd.loc = some (a, b) →
+      a ≤ b ∧ b ≤ s.length ∧
+      parseText fl ([113, 117, 101, 114, 121, 40] ++ slice s a b ++ [10, 41, 123, 97, 125]) =
+        some (queryDoc ((vd.mapLoc (locDown a)).mapLoc (locUp 6)) (b - a)) := by
+  intro x hx vd hs hwf a b hloc
+  have hnode : variableDefinitionV vd = .node (some (a, b))
+      (variableV vd.var :: p .colon :: typeV vd.type :: (defaultV vd.defaultValue ++ directivesV vd.directives)) := by
+    rw [← hloc]; rfl
+  obtain ⟨h1, h2, hnl, hlen, seg, htl, hc⟩ := doc_tiles fl s d h x hx _ hs a b _ hnode
+  refine ⟨h1, h2, ?_⟩
+  rw [← variableDefinitionV_down] at hc
+  have hnode0 : variableDefinitionV (vd.mapLoc (locDown a)) = .node (some (a - a, b - a))
+      (variableV (vd.mapLoc (locDown a)).var :: p .colon :: typeV (vd.mapLoc (locDown a)).type ::
+        (defaultV (vd.mapLoc (locDown a)).defaultValue ++ directivesV (vd.mapLoc (locDown a)).directives)) := by
+    simp only [variableDefinitionV, VariableDefinition.mapLoc, hloc, locDown]
+  rw [hnode0] at hc
+  obtain ⟨f0, tl, l1, hseg, _, hck⟩ := ctx_check fl _ _ seg (b - a)
+    (by rw [← hnode0]; exact variableDefinitionV_solid _) (by rw [← hnode0]; exact variableDefinitionV_plain _) hc
+  apply (parse_text_result fl _ _).2
+  refine ⟨_, tiles_query hlen htl, ?_, (matches_iff _ _ _).2 ⟨eofT (b - a + 11), ?_⟩⟩
+  · simp [queryDoc, wfDocument, wfDefinition, wfOperation, wfDirectives, wfSelectionSet, wfSelections, wfSelection,
+      wfOptSelectionSet, wfVariableDefinition_mapLoc, hwf, isTypeSystem, Generated.ParserTables.operationTypeTuple, K.query]
+  · -- document, operation `query ( vd ) { a }`
+    rw [checkAll_cons]
+    refine ⟨eofT (b - a + 11), [], ?_, by rw [checkAll_nil]⟩
+    simp only [documentV, queryDoc, List.map_cons, List.map_nil, definitionV]
+    rw [check_node]
+    refine ⟨_, _, rfl, ?_, by rw [locOf_eq fl hnl]; rfl⟩
+    rw [checkAll_cons]
+    refine ⟨_, _, (check_tok ..).2 ⟨_, rfl, rfl, rfl⟩, ?_⟩
+    rw [List.cons_append, List.nil_append, checkAll_cons]
+    refine ⟨⟨.curlyR, b - a + 10, b - a + 11, [125]⟩, [eofT (b - a + 11)], ?_, ?_⟩
+    · have hv : operationV ⟨K.query, none, [(vd.mapLoc (locDown a)).mapLoc (locUp 6)], [],
+          .mk [.field none ⟨[97], some (b - a + 9, b - a + 10)⟩ [] [] none (some (b - a + 9, b - a + 10))]
+            (some (b - a + 8, b - a + 11)), some (0, b - a + 11)⟩ =
+          .node (some (0, b - a + 11)) [kw K.query, p .parenL,
+            variableDefinitionV ((vd.mapLoc (locDown a)).mapLoc (locUp 6)), p .parenR,
+            .node (some (b - a + 8, b - a + 11)) [p .curlyL,
+              .node (some (b - a + 9, b - a + 10)) [nameV ⟨[97], some (b - a + 9, b - a + 10)⟩], p .curlyR]] := by
+        simp [operationV, isShorthand, optV, variableDefinitionsV, groupV, directivesV, selectionSetV, selectionsV, selectionV,
+          argumentsV, optSelectionSetV]
+      rw [hv, check_node]
+      refine ⟨_, _, rfl, ?_, by rw [locOf_eq fl hnl]⟩
+      rw [checkAll_cons]
+      refine ⟨_, _, (check_tok ..).2 ⟨_, rfl, rfl, rfl⟩, ?_⟩
+      rw [checkAll_cons]
+      refine ⟨_, _, (check_tok ..).2 ⟨_, rfl, rfl, rfl⟩, ?_⟩
+      rw [checkAll_cons]
+      refine ⟨l1.up 6, [⟨.parenR, b - a + 7, b - a + 8, [41]⟩, ⟨.curlyL, b - a + 8, b - a + 9, [123]⟩,
+        ⟨.name, b - a + 9, b - a + 10, [97]⟩, ⟨.curlyR, b - a + 10, b - a + 11, [125]⟩, eofT (b - a + 11)], ?_, ?_⟩
+      · have := hck 6 ⟨.parenL, 5, 6, [40]⟩ [⟨.parenR, b - a + 7, b - a + 8, [41]⟩, ⟨.curlyL, b - a + 8, b - a + 9, [123]⟩,
+          ⟨.name, b - a + 9, b - a + 10, [97]⟩, ⟨.curlyR, b - a + 10, b - a + 11, [125]⟩, eofT (b - a + 11)]
+        rw [← hnode0, ← variableDefinitionV_up] at this
+        exact this
+      · rw [checkAll_cons]
+        refine ⟨_, _, (check_tok ..).2 ⟨_, rfl, rfl, rfl⟩, ?_⟩
+        rw [checkAll_cons]
+        refine ⟨⟨.curlyR, b - a + 10, b - a + 11, [125]⟩, [eofT (b - a + 11)], ?_, by rw [checkAll_nil]⟩
+        -- the selection set `{ a }`
+        rw [check_node]
+        refine ⟨_, _, rfl, ?_, by rw [locOf_eq fl hnl]⟩
+        rw [checkAll_cons]
+        refine ⟨_, _, (check_tok ..).2 ⟨_, rfl, rfl, rfl⟩, ?_⟩
+        rw [checkAll_cons]
+        refine ⟨⟨.name, b - a + 9, b - a + 10, [97]⟩, [⟨.curlyR, b - a + 10, b - a + 11, [125]⟩, eofT (b - a + 11)], ?_, ?_⟩
+        · rw [check_node]
+          refine ⟨_, _, rfl, ?_, by rw [locOf_eq fl hnl]⟩
+          rw [checkAll_cons]
+          refine ⟨⟨.name, b - a + 9, b - a + 10, [97]⟩, [⟨.curlyR, b - a + 10, b - a + 11, [125]⟩, eofT (b - a + 11)], ?_,
+            by rw [checkAll_nil]⟩
+          simp only [nameV]
+          rw [check_node]
+          refine ⟨_, _, rfl, ?_, by rw [locOf_eq fl hnl]⟩
+          rw [checkAll_cons]
+          exact ⟨_, _, (check_tok ..).2 ⟨_, rfl, rfl, rfl⟩, by rw [checkAll_nil]⟩
+        · rw [checkAll_cons]
+          exact ⟨_, _, (check_tok ..).2 ⟨_, rfl, rfl, rfl⟩, by rw [checkAll_nil]⟩
+    · rw [checkAll_cons]
+      exact ⟨_, _, (check_tok ..).2 ⟨_, rfl, rfl, rfl⟩, by rw [checkAll_nil]⟩
+
 /-! ### object fields: inside braces, through `parse_value` -/
 
 /-- OBJECT FIELDS (`name: value` inside an input-object literal, at any depth of any value): the spanned text between `{ `
@@ -508,6 +602,16 @@ example : (parseText {} ([123, 32, 97, 40] ++ slice cdoc 3 8 ++ [10, 41, 125])).
         | .mk [.field _ _ args _ _ l] _ => (args.map (·.loc), l)
         | _ => ([], none))
       | _ => ([], none))) = some [([some (4, 9)], some (2, 11))] := by decide
+
+/-- `query($v:[I!]=[1] @k){a}`: the variable definition spans (6,20); `query($v:[I!]=[1] @k⏎){a}` parses to the query with that
+    variable definition at (6,20), the field `a` at (23,24) -/
+private def vdoc : Text := [113, 117, 101, 114, 121, 40, 36, 118, 58, 91, 73, 33, 93, 61, 91, 49, 93, 32, 64, 107, 41, 123, 97, 125]
+example : (parseText {} vdoc).map (fun d => d.definitions.map (fun x => match x with
+    | .operation o => o.variableDefinitions.map (·.loc) | _ => [])) = some [[some (6, 20)]] := by decide
+example : (parseText {} ([113, 117, 101, 114, 121, 40] ++ slice vdoc 6 20 ++ [10, 41, 123, 97, 125])).map
+    (fun d => d.definitions.map (fun x => match x with
+      | .operation o => (o.variableDefinitions.map (·.loc), o.loc) | _ => ([], none))) =
+    some [([some (6, 20)], some (0, 25))] := by decide
 
 /-- `{a(x:{k:[1]})}`: the object field `k:[1]` spans (6,11); `{ k:[1]⏎}` is the object literal with that field at (2,7) -/
 private def odoc : Text := [123, 97, 40, 120, 58, 123, 107, 58, 91, 49, 93, 125, 41, 125]
